@@ -100,6 +100,18 @@ def enumerate_mutants(root):
                     rs = reps if reps is not None else WIDTH_NEIGHBOUR.get(m.group(0), [])
                     for r in rs:
                         muts.append({"file": f, "line": i + 1, "col": m.start(), "old": m.group(0), "new": r, "text": line.strip()[:160]})
+    if os.environ.get("MUTATE_IFS") == "1":
+        # second family: whole `if` conditions forced to true / false (replaces the token-level family)
+        muts = []
+        for f in FILES:
+            text, idx = code_lines(os.path.join(root, f))
+            for i in idx:
+                line = text[i]
+                m = re.match(r"^(\s*(?:\} else )?if )(?!let )(.+?)( \{\s*)$", line)
+                if not m:
+                    continue
+                for r in ["true", "false"]:
+                    muts.append({"file": f, "line": i + 1, "col": len(m.group(1)), "old": m.group(2), "new": r, "text": line.strip()[:160]})
     return muts
 
 
